@@ -72,7 +72,7 @@ MAlts(G, W, alts, i, s) ==
        ELSE MAlts(G, W, Tail(alts), i, a.s)
 
 MAlt(G, W, items, tag, i, s, acc) ==
-  IF items = <<>> THEN R(Ok(<<tag>> \o acc[1], i), s)
+  IF items = <<>> THEN R(Ok(ActionValue(tag, acc[1]), i), s)
   ELSE LET it == Head(items) IN
        IF it.k = "cut" THEN MAlt(G, W, Tail(items), tag, i, s, <<acc[1], TRUE>>)
        ELSE LET x == MItem(G, W, it, i, s) IN
